@@ -11,7 +11,7 @@ From GV Require Import Common.Outcome Base.Grammar Base.GrammarFacts Base.Analys
   C02.Lr1Model C02.Lr1Proofs C02.LoopModel C02.LoopSpec C02.LoopEdgeProofs
   C02.InducedModel C02.InducedSpec C02.InducedSProofs
   C03.Model C03.Spec C03.Lists C03.Small C03.Proofs
-  C01.Pipeline C01.PipelineEdges.
+  C01.Pipeline C01.PipelineSpec C01.PipelineEdges.
 Import ListNotations.
 
 (* ---- oracle orders are permutations ----------------------------------------------------- *)
